@@ -101,6 +101,17 @@ def collectOp (boxed try_ : Bool) (n : Nat) (hint : Nat × Option Nat) (sc : Scr
   if try_ then tryFromIter (collectFrags boxed) scriptSrc n hint sc
   else fromIter (collectFrags boxed) scriptSrc n hint sc
 
+/-- `collectOp` when the destructor of element `bad` panics: the library's teardown of its
+    intermediate values (the builder's written prefix — one `drop_in_place` over a slice, which runs
+    every destructor even if one panics —, the extra item of a too-long source) is the same event
+    sequence; the panic propagates once those destructors have run, so a result that was `Err`
+    becomes a panic.  An `Ok` array is handed to the caller undropped. -/
+def collectOpD (boxed try_ : Bool) (n : Nat) (hint : Nat × Option Nat) (sc : Script) (bad : Option Id) : List Ev × Res :=
+  let r := collectOp boxed try_ n hint sc
+  match bad with
+  | some b => if (drops r.1).contains b then (r.1, .panicked) else r
+  | none => r
+
 /-- call log: `(call index, arguments)` in program order -/
 def callLog : List Ev → List (Nat × List Id)
   | [] => []
